@@ -12,7 +12,7 @@ PLAN = {
     "C08": ["K14b", "L08"],
     "C09": ["L09"],
     "C10": ["L10"],
-    "C17": ["K17", "K17b", "K17c"],
+    "C17": ["K17", "K17b", "K17c", "L17"],
     "C18": ["K18a", "K18b", "L18"],
     "C19": ["K19b", "L19"],
     "C11": ["K11a", "K11b", "L11"],
